@@ -966,3 +966,58 @@ def _carry_inv(L):
     inner = conn.inner if isinstance(conn, SOpt) else conn
     return If(cnt == 0, Not(L.ex.truth(local, L.st)),
               If(ct, L.ex.identical(local, inner, L.st), Not(L.ex.truth(local, L.st))))
+
+
+# ======================================================================================================
+# Worker.__init__ : max_requests limit computation (C18)
+# ======================================================================================================
+def _randint(ex, st, self_v, args, kwargs, node):
+    # TRUSTED: random.randint(a, b) returns an int in [a, b] (raises ValueError when a > b)
+    a, b = args[0].t, args[1].t
+    ok, bad = ex.split(st, a <= b)
+    out = []
+    if ok is not None:
+        r = fresh_int("randint")
+        ok.assume(a <= r, r <= b)
+        out.append(ex.res(ok, SInt(r)))
+    if bad is not None:
+        out.append(ex.res_exc(bad, SExc(ValueError)))
+    return out
+
+
+STUBS["random.randint"] = _randint
+STUBS["random.Random.randint"] = _randint
+STUBS["Random.randint"] = _randint
+
+
+def _workertmp(ex, st, self_v, args, kwargs, node):
+    return R1(ex, st, st.alloc(HObj("WorkerTmpModel", {})))
+
+
+STUBS["ctor:WorkerTmp"] = _workertmp
+
+
+@contract("gunicorn.workers.base:Worker.__init__", props=("C18",))
+class WorkerInit(Contract):
+    def cases(self, env):
+        env.use_class("gunicorn.workers.base", "Worker")
+        st = W.base_state(env)
+        cfg = mk_cfg(env, st)
+        slf = st.alloc(HObj("Worker", {}))
+        return [("init", st, {"self": slf, "age": SInt(z3.Int("age")), "ppid": SInt(z3.Int("ppid")), "sockets": Opaque("sockets"),
+                              "app": Opaque("app"), "timeout": SReal(z3.Real("timeout")), "cfg": cfg, "log": Opaque("log")}, {})]
+
+    def raises(self, c):
+        return [(RuntimeError, None), (OSError, None)]
+
+    def post(self, c):
+        o = c.st.obj(c.a["self"])
+        cfg = c.a["cfg"]
+        mr = c.field(cfg, "max_requests", c.old).t
+        jit = c.field(cfg, "max_requests_jitter", c.old).t
+        import sys
+        m = o.fields["max_requests"].t
+        return [("limit-within-[max_requests, max_requests+jitter]", Implies(mr > 0, And(m >= mr, m <= mr + jit))),
+                ("unset=>never-recycled(limit-is-sys.maxsize)", Implies(mr <= 0, m == sys.maxsize)),
+                ("starts-alive-with-zero-requests", And(c.ex.truth(o.fields["alive"], c.st), o.fields["nr"].t == 0)),
+                ("age-and-timeout-recorded", And(o.fields["age"].t == c.a["age"].t, o.fields["timeout"].t == c.a["timeout"].t))]
